@@ -78,6 +78,8 @@ enum verif_hook_point {
 	/* mm/buddy/multi.c */
 	VH_MM_RESTORE,     /* p=mm_state a=requested ref_i b=chosen ref_i */
 	VH_MM_FOSSIL,      /* p=mm_state a=target ref_i b=returned ref_i */
+	/* gvt/termination.c (appended) */
+	VH_TERM_CHECK,     /* a=bits of the thread's maximum termination time b=LPs of the thread not yet done   termination_on_gvt entered */
 	VH_POINT_COUNT
 };
 
